@@ -55,6 +55,9 @@ type EmbedOuter struct {
 type MethodStruct struct{ Title string }
 
 func (m MethodStruct) Upper() string { return strings.ToUpper(m.Title) }
+
+// Failing is a property whose method reports an error.
+func (m MethodStruct) Failing() (string, error) { return "", errMethodFailing }
 func (m *MethodStruct) Slug() string { return strings.ReplaceAll(strings.ToLower(m.Title), " ", "-") }
 
 // TaggedA and TaggedB rename fields with liquid tags, in ways that make a mix-up between the two types visible.
@@ -191,6 +194,11 @@ func Universe() []UVal {
 		// a NaN key can be listed but never looked up; two of them have no order
 		{Name: "mnankey", Go: map[float64]any{math.NaN(): 1, 2: []any{1}}}, {Name: "mnankey1", Go: map[float64]string{math.NaN(): "a"}, Small: true},
 		{Name: "mnankeyany", Go: map[any]any{math.NaN(): 1, math.Inf(1): 2, "a": 3, float32(math.NaN()): []any{"x"}}}, {Name: "mnankeyin", Go: []any{map[float64]any{math.NaN(): map[string]any{"k": 1}}}},
+		// two ordered maps that differ in their keys only
+		{Name: "mapslicekw", Go: yaml.MapSlice{{Key: "width", Value: 10}, {Key: "depth", Value: "d"}}}, {Name: "mapslicekh", Go: yaml.MapSlice{{Key: "height", Value: 10}, {Key: "depth", Value: "d"}}},
+		// records of every kind of map side by side (sort: key and map: key look each of them up), and nil pointers whose type is a Drop
+		{Name: "recskinds", Go: []any{map[string]any{"k": 2}, map[int]string{1: "a"}, map[bool]int{true: 1}, map[uint8]string{2: "b"}, map[any]any{"k": 1, 3: "x"}, map[float64]any{1.5: 1}, map[NTitle]int{"k": 0}, nil, 5}},
+		{Name: "nildropptr", Go: (*DropV)(nil)}, {Name: "nildropsin", Go: []any{(*DropV)(nil), 1, (*DropP)(nil)}}, {Name: "mnildrop", Go: map[string]any{"k": (*DropV)(nil)}},
 		{Name: "fn", Go: func() any { return 1 }},
 		{Name: "chan", Go: make(chan int)},
 		{Name: "complex", Go: complex(1, 2)},
@@ -254,3 +262,5 @@ func localT2() any {
 	type T struct{ B string }
 	return T{"t2"}
 }
+
+var errMethodFailing = errString("MethodStruct.Failing: no value")
